@@ -1,7 +1,10 @@
 use {
     crate::{
         command_line::arguments::Decomposition,
-        syntax_tree::fol::sigma_0::{Formula, FunctionConstant, Predicate, Sort, Theory},
+        syntax_tree::fol::sigma_0::{
+            Formula, FunctionConstant, Predicate, Sort, Theory,
+            conflicts_with_propositional_predicate,
+        },
     },
     anyhow::{Context as _, Result},
     indexmap::IndexSet,
@@ -278,14 +281,17 @@ impl fmt::Display for Problem {
 
         // Order the symbols by their original names: a symbol that was renamed to `<name>__s` because it
         // clashes with a propositional predicate still denotes `<name>` in the standard interpretation
-        let propositional_predicates: IndexSet<String> = self
+        let propositional_predicates: IndexSet<Predicate> = self
             .predicates()
             .into_iter()
             .filter(|p| p.arity == 0)
-            .map(|p| p.symbol)
             .collect();
         let original_name = |symbol: &String| match symbol.strip_suffix("__s") {
-            Some(stem) if propositional_predicates.contains(stem) => stem.to_string(),
+            Some(stem)
+                if conflicts_with_propositional_predicate(stem, &propositional_predicates) =>
+            {
+                stem.to_string()
+            }
             _ => symbol.clone(),
         };
         let mut symbols = Vec::from_iter(self.symbols());
